@@ -98,9 +98,11 @@ def deletedFor (E : Env) (files : List Bytes) (confs : List Conf) (name : Bytes)
 
 /-- files removed by one `doRun`. -/
 def deleted (E : Env) (files : List Bytes) (confs : List Conf) : List Bytes :=
-  files.filter fun f => (allPaths E files confs).any fun name => (deletedFor E files confs name).contains f
+  let dels := (allPaths E files confs).flatMap (deletedFor E files confs)
+  files.filter fun f => dels.contains f
 
 def remaining (E : Env) (files : List Bytes) (confs : List Conf) : List Bytes :=
-  files.filter fun f => !(deleted E files confs).contains f
+  let d := deleted E files confs
+  files.filter fun f => !d.contains f
 
 end MtxVerif.C30
